@@ -443,6 +443,12 @@ class MetricTranslator:
             raise MetricViolation(f"{fi.name}:{loop.lineno}: the element loop '{unparse(loop.iter)}' does not run over all "
                                   "coordinates (range(x.shape[0]) expected)")
         lenv = dict(env)
+        # a local the body assigns starts every round unset: its value from before the loop (or from the previous coordinate)
+        # must not be read
+        carried = {n.id for st in loop.body for n in ast.walk(st) if isinstance(n, ast.Name) and isinstance(n.ctx, ast.Store)} - {target}
+        carried = {nm for nm in carried if nm in lenv}
+        for nm in carried:
+            del lenv[nm]
         lenv[ivar] = ("index", None)
         lenv.update(pre_bind)
 
@@ -462,6 +468,26 @@ class MetricTranslator:
                     vals = [self._expr(v, benv, ops, obl, fi, depth) for v in st.value.elts]
                     for t, v in zip(st.targets[0].elts, vals):
                         benv[t.id] = v
+                    continue
+                plain = lambda blk: all(isinstance(x, ast.Assign) and len(x.targets) == 1 and isinstance(x.targets[0], ast.Name)
+                                        for x in blk)
+                if isinstance(st, ast.If) and not last and st.body and plain(st.body) and plain(st.orelse):
+                    # `shift = 0.0; if c: shift = abs(lo)`: locals updated under a test take the chosen value
+                    cond = self._cond(st.test, benv, ops, obl, fi, depth)
+                    envs = []
+                    for blk in (st.body, st.orelse):
+                        e2 = dict(benv)
+                        for x in blk:
+                            e2[x.targets[0].id] = self._expr(x.value, e2, ops, obl, fi, depth)
+                        envs.append(e2)
+                    for nm in {x.targets[0].id for blk in (st.body, st.orelse) for x in blk}:
+                        a, b = envs[0].get(nm), envs[1].get(nm)
+                        if (a is None or b is None) and nm in carried:
+                            raise MetricViolation(f"{fi.name}:{st.lineno}: `{nm}` is set before the element loop and changed under a "
+                                                  "test inside it: a coordinate sees the value left by an earlier coordinate")
+                        if a is None or b is None or a[0] != b[0] or a[0] != "scalar":
+                            raise AnalysisError(f"{fi.name}: element loop body outside the whitelist")
+                        benv[nm] = ("scalar", sp.Piecewise((a[1], cond), (b[1], True)))
                     continue
                 if isinstance(st, ast.If) and st.orelse and last:
                     cond = self._cond(st.test, benv, ops, obl, fi, depth)
